@@ -643,6 +643,31 @@ def family_naming():
                  Node(FUNC, deps=[(2, 'val')], has_err=flags[1][0], has_cleanup=flags[1][1], name='Conn'),
                  Node(FUNC, has_err=flags[2][0], has_cleanup=flags[2][1], name='Conf')]
         specs.append(Spec(nodes, (0, 'val'), naming='adversarial', label='exactly one cleanup-returning provider (position %d of 3) next to package-level err and cleanup' % pos, family='naming'))
+    for params, call in (('Err', 'Err{ID: a}'), ('_ Err', 'Err{ID: a}')):
+        files = {
+            'providers.go': ('package {PKG}\n\nimport "example.com/corpus/vrt"\n\ntype Err struct{ ID int }\ntype Logger struct{ ID int }\ntype App struct{ ID int }\n\n'
+                             'func NewLogger() (Logger, error) {\n\tid, err := vrt.Call(1, true)\n\tif err != nil {\n\t\treturn Logger{}, err\n\t}\n\treturn Logger{ID: id}, nil\n}\n\n'
+                             'func NewApp(l Logger, e Err) App {\n\tid, _ := vrt.Call(0, false, l.ID, e.ID)\n\treturn App{ID: id}\n}\n'),
+            'wire.go': '//go:build wireinject\n// +build wireinject\n\npackage {PKG}\n\nimport "github.com/google/wire"\n\nfunc Inject(%s) (App, error) {\n\tpanic(wire.Build(NewLogger, NewApp))\n}\n' % params,
+            'zz_driver.go': ('//go:build !wireinject\n// +build !wireinject\n\npackage {PKG}\n\nimport "example.com/corpus/vrt"\n\nfunc VDrive() {\n'
+                             '\tspec := &vrt.Spec{RetErr: true, Nodes: []vrt.Node{{Name: "NewApp", Kind: vrt.KFunc, Params: []vrt.Ref{{Node: 1}, {Node: 2}}}, {Name: "NewLogger", Kind: vrt.KFunc, HasErr: true}, {Name: "e", Kind: vrt.KArg}}, Result: []vrt.Ref{{Node: 0}}}\n'
+                             '\tfor round := 0; round < 2; round++ {\n\t\tvrt.Round = round\n\t\tvrt.Reset()\n\t\ta := vrt.ArgID("e")\n\t\tspec.ArgIDs = [][]int{nil, nil, {a}}\n\t\tres, err := Inject(%s)\n'
+                             '\t\tvrt.Check(spec, vrt.Outcome{Result: []int{res.ID}, CleanupNil: true, Err: err})\n\t}\n}\n' % call),
+        }
+        specs.append(RawSpec(files, 'injector parameter "%s" of a type named Err next to an error-returning provider (the invented parameter name must avoid the error variable)' % params, family='naming', naming='adversarial'))
+    files = {
+        'providers.go': ('package {PKG}\n\nimport (\n\t"example.com/corpus/vrt"\n\ta "example.com/corpus/{PKG}/a"\n\tb "example.com/corpus/{PKG}/b"\n)\n\ntype App struct{ ID int }\n\n'
+                         'func NewApp(x a.Config, y b.Config, z *a.Config) App {\n\tid, _ := vrt.Call(0, false, x.ID, y.ID, z.ID)\n\treturn App{ID: id}\n}\n'),
+        'wire.go': ('//go:build wireinject\n// +build wireinject\n\npackage {PKG}\n\nimport (\n\t"github.com/google/wire"\n\ta "example.com/corpus/{PKG}/a"\n\tb "example.com/corpus/{PKG}/b"\n)\n\n'
+                    'func Inject(a.Config, b.Config, *a.Config) App {\n\tpanic(wire.Build(NewApp))\n}\n\nfunc InjectBlank(_ a.Config, _ b.Config, _ *a.Config) App {\n\tpanic(wire.Build(NewApp))\n}\n'),
+        'zz_driver.go': ('//go:build !wireinject\n// +build !wireinject\n\npackage {PKG}\n\nimport (\n\t"example.com/corpus/vrt"\n\ta "example.com/corpus/{PKG}/a"\n\tb "example.com/corpus/{PKG}/b"\n)\n\nfunc VDrive() {\n'
+                         '\tspec := &vrt.Spec{Nodes: []vrt.Node{{Name: "NewApp", Kind: vrt.KFunc, Params: []vrt.Ref{{Node: 1}, {Node: 2}, {Node: 3}}}, {Name: "x", Kind: vrt.KArg}, {Name: "y", Kind: vrt.KArg}, {Name: "z", Kind: vrt.KArg}}, Result: []vrt.Ref{{Node: 0}}}\n'
+                         '\tx, y, z := vrt.ArgID("x"), vrt.ArgID("y"), vrt.ArgID("z")\n\tspec.ArgIDs = [][]int{nil, {x}, {y}, {z}}\n'
+                         '\tvrt.Reset()\n\tr1 := Inject(a.Config{ID: x}, b.Config{ID: y}, &a.Config{ID: z})\n\tvrt.Check(spec, vrt.Outcome{Result: []int{r1.ID}, CleanupNil: true})\n'
+                         '\tvrt.Reset()\n\tr2 := InjectBlank(a.Config{ID: x}, b.Config{ID: y}, &a.Config{ID: z})\n\tvrt.Check(spec, vrt.Outcome{Result: []int{r2.ID}, CleanupNil: true})\n}\n'),
+    }
+    specs.append(RawSpec(files, 'unnamed and blank injector parameters of equally named types from two packages (the invented names must differ from each other)', family='naming', naming='adversarial',
+                         extra_pkgs={'a': {'a.go': 'package a\n\ntype Config struct{ ID int }\n'}, 'b': {'b.go': 'package b\n\ntype Config struct{ ID int }\n'}}))
     for nm_ in ('Cleanup', 'Err'):
         for he, hc in FLAGS[1:]:
             nodes = [Node(FUNC, has_err=he, has_cleanup=hc, name=nm_)]
@@ -910,6 +935,19 @@ def family_values():
             'var SetPort = wire.NewSet(wire.Value(Cfg.Port))\nvar SetName = wire.NewSet(wire.Value(Name(Cfg.Name)))\nvar SetElem = wire.NewSet(wire.Value(int8(Ports[1])))\nvar SetEntry = wire.NewSet(wire.Value(int16(Table["k"])))\n')
     specs.append(RawSpec(files, 'values written in another package from variables that have namesakes in the injector\'s package (selector, conversion, index, map entry)', family='values',
                          extra_pkgs={'q': {'q.go': qsrc}}))
+    # the accessibility check does not depend on the injector's result list
+    for sig, ret in (('(int, func(), error)', ''), ('(int, error)', ''), ('(int, func())', '')):
+        files = {
+            'providers.go': 'package {PKG}\n',
+            'wire.go': '//go:build wireinject\n// +build wireinject\n\npackage {PKG}\n\nimport (\n\t"github.com/google/wire"\n\t"example.com/corpus/{PKG}/q"\n)\n\nfunc Inject() %s {\n\tpanic(wire.Build(q.Set))\n}\n' % sig,
+        }
+        specs.append(RawSpec(files, 'rejected value form: unexported variable of another package, injector returning %s' % sig, expect='reject', reject_props=['C13'], family='values',
+                             extra_pkgs={'q': {'q.go': 'package q\n\nimport "github.com/google/wire"\n\nvar hidden = 3\nvar Set = wire.NewSet(wire.Value(hidden))\n'}}))
+    files = {
+        'providers.go': 'package {PKG}\n\ntype Cfg struct{ Port int }\n\nvar cfg = Cfg{Port: 80}\n',
+        'wire.go': '//go:build wireinject\n// +build wireinject\n\npackage {PKG}\n\nimport "github.com/google/wire"\n\nfunc Inject(cfg Cfg) (int, func(), error) {\n\tpanic(wire.Build(wire.Value(cfg.Port)))\n}\n',
+    }
+    specs.append(RawSpec(files, 'rejected value form: an injector parameter (a package-level namesake exists), injector returning (int, func(), error)', expect='reject', reject_props=['C13'], family='values'))
     # ... and the accessible counterparts (exported field / method value of an exported variable) are accepted
     files = {
         'providers.go': 'package {PKG}\n',
@@ -1318,6 +1356,37 @@ def family_frontend():
              'side1': {'side1.go': 'package side1\n\nimport "example.com/corpus/{PKG}/reg"\n\nfunc init() { reg.Register() }\n'},
              'side2': {'side2.go': 'package side2\n\nimport "example.com/corpus/{PKG}/reg"\n\nfunc init() { reg.Register() }\n'}}
     specs.append(RawSpec(files, 'dot-imported wire package (Build, NewSet, Bind) and two blank imports in the injector file', family='frontend', extra_pkgs=extra, compile_props=['C01', 'C15']))
+    # --- Bind under a dot import means what it means under a qualified import: new(C) binds C, new(*C) binds *C
+    files = {
+        'providers.go': ('package {PKG}\n\nimport "example.com/corpus/vrt"\n\ntype I interface{ VID() int }\ntype Val struct{ ID int }\ntype Ptr struct{ ID int }\n\nfunc (v Val) VID() int  { return v.ID }\nfunc (p *Ptr) VID() int { return p.ID }\n\n'
+                         'func NewVal() Val {\n\tid, _ := vrt.Call(1, false)\n\treturn Val{ID: id}\n}\n\nfunc NewPtr() *Ptr {\n\tid, _ := vrt.Call(2, false)\n\treturn &Ptr{ID: id}\n}\n\n'
+                         'func isVal(i I) bool { _, ok := i.(Val); return ok }\n'),
+        'wire.go': ('//go:build wireinject\n// +build wireinject\n\npackage {PKG}\n\nimport . "github.com/google/wire"\n\n'
+                    'func InjectVal() I {\n\tpanic(Build(NewVal, Bind(new(I), new(Val))))\n}\n\nfunc InjectPtr() I {\n\tpanic(Build(NewPtr, Bind(new(I), new(*Ptr))))\n}\n'),
+        'zz_driver.go': ('//go:build !wireinject\n// +build !wireinject\n\npackage {PKG}\n\nimport "example.com/corpus/vrt"\n\nfunc VDrive() {\n'
+                         '\tspec := &vrt.Spec{Nodes: []vrt.Node{{Name: "unused", Kind: vrt.KArg}, {Name: "NewVal", Kind: vrt.KFunc}, {Name: "NewPtr", Kind: vrt.KFunc}}, Result: []vrt.Ref{{Node: 1}}, ArgIDs: make([][]int, 3)}\n'
+                         '\tvrt.Reset()\n\ta := InjectVal()\n\tvrt.A("C11", isVal(a), "under a dot import Bind(new(I), new(C)) binds the value type C")\n\tvrt.Check(spec, vrt.Outcome{Result: []int{a.VID()}, CleanupNil: true})\n'
+                         '\tspec.Result = []vrt.Ref{{Node: 2}}\n\tvrt.Reset()\n\tb := InjectPtr()\n\tvrt.Check(spec, vrt.Outcome{Result: []int{b.VID()}, CleanupNil: true})\n}\n'),
+    }
+    specs.append(RawSpec(files, 'Bind under a dot import of wire: value-receiver type bound as a value, pointer-receiver type bound as a pointer', family='frontend'))
+    specs[-1].extra_props = ['C11', 'C10']
+    files = {
+        'providers.go': 'package {PKG}\n\ntype I interface{ M() }\ntype P struct{}\n\nfunc (p *P) M() {}\n\nfunc NewP() P   { return P{} }\nfunc NewPP() *P { return &P{} }\n',
+        'wire.go': '//go:build wireinject\n// +build wireinject\n\npackage {PKG}\n\nimport . "github.com/google/wire"\n\nfunc Inject() I {\n\tpanic(Build(NewP, NewPP, Bind(new(I), new(P))))\n}\n',
+    }
+    specs.append(RawSpec(files, 'must be rejected: under a dot import, Bind(new(I), new(P)) where only *P has the method', expect='reject', reject_props=['C11'], family='frontend'))
+    # --- two injector files that use one identifier for two different packages; each has a copied helper calling into its package
+    files = {
+        'providers.go': 'package {PKG}\n\ntype Label struct{ S string }\ntype Secret struct{ S string }\n\nfunc NewLabel() Label   { return Label{S: encodeLabel("a")} }\nfunc NewSecret() Secret { return Secret{S: encodeSecret("a")} }\n',
+        'label_wire.go': ('//go:build wireinject\n// +build wireinject\n\npackage {PKG}\n\nimport (\n\t"github.com/google/wire"\n\t"example.com/corpus/{PKG}/plain/codec"\n)\n\n'
+                          'func InjectLabel() Label {\n\tpanic(wire.Build(NewLabel))\n}\n\nfunc encodeLabel(s string) string { return codec.Encode(s) }\n'),
+        'secret_wire.go': ('//go:build wireinject\n// +build wireinject\n\npackage {PKG}\n\nimport (\n\t"github.com/google/wire"\n\t"example.com/corpus/{PKG}/secure/codec"\n)\n\n'
+                           'func InjectSecret() Secret {\n\tpanic(wire.Build(NewSecret))\n}\n\nfunc encodeSecret(s string) string { return codec.Encode(s) }\n'),
+        'zz_driver.go': ('//go:build !wireinject\n// +build !wireinject\n\npackage {PKG}\n\nimport "example.com/corpus/vrt"\n\nfunc VDrive() {\n'
+                         '\tvrt.A("C15,C14", InjectLabel().S == "plain:a" && InjectSecret().S == "secure:a", "a copied declaration keeps calling the package its file imported under that name (two files use one identifier for two packages)")\n\tvrt.Cover("zoo-checked")\n}\n'),
+    }
+    extra = {'plain/codec': {'codec.go': 'package codec\n\nfunc Encode(s string) string { return "plain:" + s }\n'}, 'secure/codec': {'codec.go': 'package codec\n\nfunc Encode(s string) string { return "secure:" + s }\n'}}
+    specs.append(RawSpec(files, 'two injector files using one identifier (codec) for two different packages, each with a copied helper calling into its package', family='frontend', extra_pkgs=extra, compile_props=['C01', 'C15', 'C14']))
     # --- struct provider with an embedded field, "*" and explicit names; injector with named results and blank / unnamed parameters
     files = {
         'providers.go': ('package {PKG}\n\nimport "example.com/corpus/vrt"\n\ntype Base struct{ ID int }\ntype Other struct{ ID int }\ntype S struct {\n\tBase\n\tO    Other\n\tskip int\n}\n\n'
